@@ -12,11 +12,7 @@ SENTINELS = [0, -1, 7, -999.5, 1e300]
 
 META = {
     "level": "exploration",
-    "rule": ("inputs as in C03, both cube types, aggregates count/valid_count/sum/mean, each evaluated under "
-             "return_missing_as = NaN, (sentinel, False) for sentinel in {0,-1,7,-999.5,1e300}, and plain 0 (excluded: "
-             "valid_count with a plain value under propagation, the documented shortcut). Non-trivial: the output has "
-             "both a missing and a non-missing cell and >=1 cell is missing because of a missing value (not for lack of "
-             "rows); distinct by content hash"),
+    "rule": ("inputs as in C03, both cube types, aggregates count/valid_count/sum/mean, each evaluated under return_missing_as = NaN, (sentinel, False) for sentinel in {0,-1,7,-999.5,1e300}, and plain 0 (excluded: valid_count with a plain value under propagation, the documented shortcut); the same argument objects for all calls in every second case, the fact array edited in place between two rounds. Non-trivial: the output has both a missing and a non-missing cell and >=1 cell is missing because of a missing value (not for lack of rows); distinct by content hash"),
     "require": {t: ["format:nan", "format:tuple", "format:plain0", "cube:ccube", "cube:xcube",
                     "class:missing_in_common_category", "class:cols_different_patterns", "class:weights+facts_missing",
                     "cells:missing_by_value", "cells:missing_no_rows", "class:ignore", "class:propagate",
@@ -180,8 +176,7 @@ def judge(ctx, case):
                     bad = oracles.compare(res, NaN, ref_v, ref_m, tol)
                     if bad:
                         ctx.violation("after-in-place-edit-of-the-fact-array:%s:%s" % (bad[0], aggr.feature_key(case2, agg, cname)),
-                                      "%s.%s after the caller edited its fact array in place (row %d struck out, row %d filled) and "
-                                      "passed the same object again: %s" % (cname, agg, r0, r1, bad[1]), case2)
+                                      "%s.%s after the caller edited its fact array in place (row %d struck out, row %d filled) and passed the same object again: %s" % (cname, agg, r0, r1, bad[1]), case2)
                         return
     if ctx.evals % 700 < 24 and len(ctx.samples) < 4:
         ctx.sample({"dense": dense, "commons": case["commons"], "fact": fx, "fact_validity": f["validity"],
